@@ -2,71 +2,9 @@
    marker state machine, its refinement to the executable model, conservation of the input
    chunks, and the invariant that no block-level chunk lies between a marker and its close. *)
 From Coq Require Import List NArith Arith Bool String Lia.
-From WMD Require Import Gen.Tables Lib.Str Lib.PyChars Lib.Escape Lib.Difflib Model.RenderTokens Model.RenderMerge.
+From WMD Require Import Gen.Tables Lib.Str Lib.PyChars Lib.Escape Lib.Difflib Model.RenderTokens Model.RenderMerge Model.RenderLabelled.
 Import ListNotations.
 Open Scope N_scope.
-
-Inductive ochunk :=
-| OOpen                      (* <ins|del class="wm-diff"> *)
-| OClose                     (* </ins|del> *)
-| OSrc (s : str)             (* a chunk of the input stream, unchanged *)
-| OSynClose (name : str)     (* synthetic </name> of an inline element being tracked *)
-| OSynOpen (name : str).     (* synthetic <name> re-opening it after the marker *)
-
-Definition render_o (tag_type : str) (o : ochunk) : str :=
-  match o with
-  | OOpen => open_marker tag_type
-  | OClose => close_tag_of tag_type
-  | OSrc s => s
-  | OSynClose n => close_tag_of n
-  | OSynOpen n => open_tag_of n
-  end.
-
-Fixpoint merge_changes_l (chunks : list str) (st : option (list str)) : list ochunk :=
-  match chunks with
-  | [] =>
-      match st with
-      | Some cc => map OSynClose cc ++ [OClose] ++ map OSynOpen (rev cc)
-      | None => []
-      end
-  | chunk :: rest =>
-      match chunk with
-      | [] => merge_changes_l rest st
-      | _ =>
-          let plain (st0 : option (list str)) (track : option str) :=
-            let '(pre, cc) := match st0 with
-                              | None => ([OOpen], [])
-                              | Some cc => ([], cc)
-                              end in
-            let cc' := match track with Some n => n :: cc | None => cc end in
-            pre ++ [OSrc chunk] ++ merge_changes_l rest (Some cc') in
-          if starts_lt chunk then
-            let name := chunk_tag_name chunk in
-            if second_is_slash chunk then
-              match st with
-              | Some cc =>
-                  if is_block_name name then
-                    map OSynClose cc ++ [OClose; OSrc chunk] ++ merge_changes_l rest None
-                  else
-                    match index_of name cc 0 with
-                    | Some i => [OSrc chunk] ++ merge_changes_l rest (Some (skipn (S i) cc))
-                    | None =>
-                        if mem_str name Tables.empty_tags then [OSrc chunk] ++ merge_changes_l rest (Some cc)
-                        else
-                        map OSynClose cc ++ [OClose; OSrc chunk; OOpen] ++
-                        map OSynOpen (rev cc) ++ merge_changes_l rest (Some cc)
-                    end
-              | None => [OSrc chunk] ++ merge_changes_l rest None
-              end
-            else if is_block_name name then
-              match st with
-              | Some cc => map OSynClose cc ++ [OClose; OSrc chunk] ++ merge_changes_l rest None
-              | None => [OSrc chunk] ++ merge_changes_l rest None
-              end
-            else plain st (if tracks_open name then Some name else None)
-          else plain st None
-      end
-  end.
 
 (* the labelled machine is the executable model, label by label *)
 Lemma merge_changes_l_refines tt : forall chunks st,
